@@ -215,7 +215,41 @@ fn instants(nb: i64, na: i64) -> Vec<(&'static str, bool, rpki::repository::x509
 
 fn kind_name(k: Kind) -> &'static str { match k { Kind::Ta => "ta", Kind::Ca => "ca", Kind::Ee => "ee", Kind::Router => "router" } }
 
+/// The observations the environment space compares between processes started with different
+/// `TZ` settings: the decoded validity of certificates written with UTCTime and GeneralizedTime
+/// and the verdicts at instants around both ends of the window, for every kind.
+fn env_observations() -> Vec<String> {
+    use rpki::repository::x509::Validity;
+    let signer = PoolSigner::load();
+    let ta = valid_ta(&signer, TA_KEY, Res::all());
+    let ca_res = Res { v4: Claim::Blocks(vec![(0x0a00_0000, 0x0aff_ffff)]), v6: Claim::Missing, asn: Claim::Blocks(vec![(64496, 64511)]) };
+    let ca = valid_ca(&signer, &ta, TA_KEY, CA_KEY, ca_res.clone());
+    let mut out = Vec::new();
+    // windows: ordinary (UTCTime), around midnight and a DST change date, GeneralizedTime (2050+)
+    let windows: [(i64, i64); 4] = [(T0 - 1000, T0 + 1000), (1_711_846_800 - 3600, 1_711_846_800 + 3600) /* 2024-03-31T01:00Z */, (1_699_142_400, 1_699_228_800) /* 2023-11-05 */, (2_524_608_000 + 5, 2_524_608_000 + 86_400) /* 2050-01-01 */];
+    for (wi, (nb, na)) in windows.iter().enumerate() {
+        for kind in [Kind::Ta, Kind::Ca, Kind::Ee, Kind::Router] {
+            let res = match kind { Kind::Ta => Res::all(), Kind::Router => Res { v4: Claim::Missing, v6: Claim::Missing, asn: Claim::Blocks(vec![(64500, 64500)]) }, _ => Res { v4: Claim::Blocks(vec![(0x0a00_0000, 0x0a00_00ff)]), v6: Claim::Missing, asn: Claim::Blocks(vec![(64500, 64501)]) } };
+            let mut spec = if kind == Kind::Ta { Spec::ta(TA_KEY, res) } else { Spec::issued(kind, LEAF_KEY, CA_KEY, signer.ski(CA_KEY), res, Overclaim::Refuse) };
+            spec.validity = Validity::new(time(*nb), time(*na));
+            let der = build_cert_der(&signer, &spec);
+            let c = Cert::decode(der.as_slice()).expect("decodes");
+            out.push(format!("window={wi} kind={} decoded validity {}..{}", kind_name(kind), c.validity().not_before().timestamp(), c.validity().not_after().timestamp()));
+            for (tn, _, t) in instants(*nb, *na) {
+                let r = guard(|| validate(kind, Cert::decode(der.as_slice()).expect("decodes"), &ca, true, t).is_ok());
+                out.push(format!("window={wi} kind={} t={tn} -> {:?}", kind_name(kind), r));
+            }
+        }
+    }
+    out
+}
+
 fn main() {
+    if std::env::args().any(|a| a == "--observe-env") {
+        rpki_verif::engine::report::install_quiet_panic_hook();
+        for l in env_observations() { println!("{l}") }
+        return;
+    }
     let ctx = Ctx::new("C01", "exploration");
     ctx.assume("aws-lc RSA PKCS#1 v1.5 verification is correct; keys come from a fixed pool of 8");
     ctx.assume("certificates are built with the library's TbsCert and signed/assembled with aws-lc and the independent DER encoder");
@@ -957,6 +991,102 @@ fn main() {
             }
             sp.done(true, "10 (AKI: 11) identifier values x 3 spellings x {SKI, AKI} x 3 kinds x 2 decode modes");
         }
+    }
+
+    //---------------------------------------------------------------- history
+    {
+        let sp = ctx.space("history.independent",
+            "sequences of validations on ONE fresh OS thread: every ordered pair (thorough: triple) of the 47 operations {sub-CA, EE, router leaf in the variants good / signed by another key / AKI of another key / wrong SKI / expired} x offered issuer {the issuer, another CA, a CA certificate with ANOTHER key that carries the issuer's SKI value (obtained through verify_ca_at, which does not compare the SKI with the key)} plus {good TA, TA signed by another key}; oracle (differential, no expected values): the observation of the last operation - verdict and attached resources - equals the observation of the same operation evaluated first thing on its own fresh thread; what happened before on the thread must not matter; non-trivial = sequences whose last two operations differ");
+        let ca_res = Res { v4: Claim::Blocks(vec![(0x0a00_0000, 0x0aff_ffff)]), v6: Claim::Missing, asn: Claim::Blocks(vec![(64496, 64511)]) };
+        let ca = valid_ca(&signer, &ta, TA_KEY, CA_KEY, ca_res.clone());
+        let other_ca = valid_ca(&signer, &ta, TA_KEY, OTHER_KEY, ca_res.clone());
+        // same SKI value as `ca`, different key
+        let twin = {
+            let mut spec = Spec::issued(Kind::Ca, CA2_KEY, TA_KEY, ta_ski, ca_res.clone(), Overclaim::Refuse);
+            spec.ski_override = Some(signer.ski(CA_KEY));
+            guard(|| build_cert(&signer, &spec).verify_ca_at(&ta, true, time(T0)).ok()).ok().flatten()
+        };
+        if twin.is_none() { ctx.assume("history: verify_ca_at refuses a CA certificate whose SKI is not the hash of its key; the same-SKI-different-key issuer is left out") }
+        let mut ops: Vec<(String, Kind, Vec<u8>, usize)> = Vec::new(); // (name, kind, der, issuer index)
+        for kind in [Kind::Ca, Kind::Ee, Kind::Router] {
+            for variant in 0..5 {
+                let res = if kind == Kind::Router { Res { v4: Claim::Missing, v6: Claim::Missing, asn: Claim::Blocks(vec![(64500, 64500)]) } } else { Res { v4: Claim::Blocks(vec![(0x0a00_0000, 0x0a00_00ff)]), v6: Claim::Missing, asn: Claim::Blocks(vec![(64500, 64501)]) } };
+                let mut spec = Spec::issued(kind, LEAF_KEY, CA_KEY, signer.ski(CA_KEY), res, Overclaim::Refuse);
+                match variant { 1 => spec.signing_key = OTHER_KEY, 2 => spec.aki = Some(signer.ski(OTHER_KEY)), 3 => spec.ski_override = Some(signer.ski(5)), 4 => spec.validity = rpki::repository::x509::Validity::new(time(T0 - 2000), time(T0 - 1000)), _ => {} }
+                let der = build_cert_der(&signer, &spec);
+                for issuer in 0..3 {
+                    if issuer == 2 && twin.is_none() { continue }
+                    ops.push((format!("{}.{}@{}", kind_name(kind), ["good", "signed-by-other", "aki-other", "ski-wrong", "expired"][variant], ["issuer", "other-ca", "same-ski-twin"][issuer]), kind, der.clone(), issuer));
+                }
+            }
+        }
+        ops.push(("ta.good".into(), Kind::Ta, build_cert_der(&signer, &Spec::ta(TA_KEY, Res::all())), 0));
+        ops.push(("ta.signed-by-other".into(), Kind::Ta, { let mut sp_ = Spec::ta(TA_KEY, Res::all()); sp_.signing_key = OTHER_KEY; build_cert_der(&signer, &sp_) }, 0));
+        let issuers: Vec<&ResourceCert> = match &twin { Some(t) => vec![&ca, &other_ca, t], None => vec![&ca, &other_ca] };
+        let observe = |i: usize| -> String {
+            let (_, kind, der, issuer) = &ops[i];
+            match guard(|| {
+                let c = match Cert::decode(der.as_slice()) { Ok(c) => c, Err(e) => return format!("decode error {e}") };
+                match validate(*kind, c, issuers[*issuer], true, time(T0)) {
+                    Ok(Some(rc)) => format!("accepted v4={:x?} v6={:x?} as={:?}", rc.v4_resources().iter().map(|b| (b.min().to_bits(), b.max().to_bits())).collect::<Vec<_>>(), rc.v6_resources().iter().map(|b| (b.min().to_bits(), b.max().to_bits())).collect::<Vec<_>>(), rc.as_resources().iter().map(|b| (b.min().into_u32(), b.max().into_u32())).collect::<Vec<_>>()),
+                    Ok(None) => "accepted".into(),
+                    Err(_) => "rejected".into(),
+                }
+            }) { Ok(s) => s, Err(p) => format!("panic {p}") }
+        };
+        // a sequence runs on a thread of its own; returns the observation of its last operation
+        let run_seq = |seq: &[usize]| -> String {
+            std::thread::scope(|sc| sc.spawn(|| { let mut last = String::new(); for &i in seq { last = observe(i) } last }).join().unwrap_or_else(|_| "thread died".into()))
+        };
+        let fresh: Vec<String> = (0..ops.len()).map(|i| run_seq(&[i])).collect();
+        for f in &fresh { sp.outcome(if f.starts_with("accepted") { "subject-accepted-when-fresh" } else { "subject-rejected-when-fresh" }) }
+        sp.evals(ops.len() as u64);
+        let n = ops.len();
+        let mut seqs: Vec<Vec<usize>> = Vec::new();
+        for a in 0..n { for b in 0..n { seqs.push(vec![a, b]) } }
+        if ctx.tier.is_thorough() { for a in 0..n { for b in 0..n { for c in 0..n { seqs.push(vec![a, b, c]) } } } }
+        seqs.par_iter().for_each(|seq| {
+            sp.eval();
+            let last = *seq.last().unwrap();
+            if seq[seq.len() - 2] != last { sp.nontrivial(1) }
+            let got = run_seq(seq);
+            if got != fresh[last] {
+                ctx.fail("C01.history.independent", format!("sequence={}", seq.iter().map(|i| ops[*i].0.as_str()).collect::<Vec<_>>().join(",")),
+                    format!("last operation gives `{got}` after this history, `{}` on a fresh thread", fresh[last]));
+            }
+        });
+        // running twice gives the same result (the harness owns every choice)
+        let again: Vec<String> = (0..ops.len()).map(|i| run_seq(&[i])).collect();
+        if again != fresh { ctx.machinery_error("history: fresh-thread observations differ between two runs") }
+        sp.sample_str(|| format!("{} operations, {} sequences; e.g. {} -> {}", n, seqs.len(), ops[0].0, fresh[0]));
+        sp.done(true, if ctx.tier.is_thorough() { "all ordered pairs and triples of 47 operations" } else { "all ordered pairs of 47 operations" });
+    }
+
+    //---------------------------------------------------------------- environment
+    {
+        let sp = ctx.space("environment.tz",
+            "the explorer re-executes itself with TZ set to UTC, America/New_York, Asia/Tokyo, Pacific/Chatham, the POSIX string EST5EDT and an unusable value, and compares the decoded validity (as seconds since the epoch) and the verdict at 10 instants around both ends of 4 windows (UTCTime, a European and an American DST change date, GeneralizedTime) for TA, CA, EE and router certificates; oracle: identical observations in every environment and in this process; non-trivial = every observation compared");
+        let here = env_observations();
+        let exe = std::env::current_exe().expect("own path");
+        let mut usable = 0;
+        for tz in ["UTC", "America/New_York", "Asia/Tokyo", "Pacific/Chatham", "EST5EDT", "<-03>3", ":/nonexistent/zone"] {
+            let out = std::process::Command::new(&exe).arg("--observe-env").env("TZ", tz).output();
+            let Ok(out) = out else { ctx.machinery_error(format!("cannot re-execute for TZ={tz}")); continue };
+            if !out.status.success() { ctx.fail("C01.environment.tz", format!("TZ={tz}"), format!("child ended with {:?}: {}", out.status, String::from_utf8_lossy(&out.stderr).chars().take(300).collect::<String>())); continue }
+            let lines: Vec<String> = String::from_utf8_lossy(&out.stdout).lines().map(|l| l.to_string()).collect();
+            if lines.len() != here.len() { ctx.fail("C01.environment.tz", format!("TZ={tz}"), format!("{} observations, {} here", lines.len(), here.len())); continue }
+            usable += 1;
+            for (a, b) in lines.iter().zip(&here) {
+                sp.eval(); sp.nontrivial(1);
+                if a != b { ctx.fail("C01.environment.tz", format!("TZ={tz} {}", b.split(" -> ").next().unwrap_or("")), format!("with TZ={tz}: `{a}`; in this process: `{b}`")) }
+            }
+        }
+        for l in &here { sp.outcome(if l.ends_with("Ok(true)") { "accepted" } else if l.ends_with("Ok(false)") { "rejected" } else { "decoded-window" }) }
+        sp.set("environments", serde_json::json!(usable));
+        // does the zone database exist, i.e. did the non-UTC runs really run in another zone?
+        let zi = std::path::Path::new("/usr/share/zoneinfo/America/New_York").exists();
+        if !zi { ctx.assume("environment.tz: no zone database in this sandbox; only the POSIX TZ strings change the local zone") }
+        sp.done(true, "7 TZ settings x 4 windows x 4 kinds x (1 decoded window + 10 instants)");
     }
 
     ctx.finish();
